@@ -223,6 +223,9 @@ def qm_configs(tier, default_cfg):
       ("mlp", {"Dense": [4, 8, 3], "Activation": [4]}, S, {}),
       ("mlp", {"Dense": [2], "default": 4, "Activation": [3]}, S, {}),
       ("mlp", {"Dense": [8, 8, 2]}, S, {"activation_bits": 4}),
+      # role limits in decreasing order: a role filtered with another role's limit exceeds its own
+      ("mlp", {"Dense": [4, 4, 1], "Activation": [1]}, D, {"activation_bits": 1}),
+      ("conv", {"Conv2D": [8, 4, 1], "DepthwiseConv2D": [8, 4, 2], "Dense": [8, 4, 3]}, S, {"activation_bits": 2}),
       # pattern groups (d0,d1 share), pattern + class, singleton lists -> Fixed
       ("mlp", {"^d[01]$": [2, 8, 3], "Dense": [4, 4, 6], "Activation": [6]}, S, {}),
       ("mlp", {"Dense": [1, 4, 1], "Activation": [1]}, S, {}),
@@ -619,8 +622,8 @@ def stream_qm(run, ai, rng, tier, default_cfg):
 
   ai.model_quantize = spy
   max_exh = 2000
-  budget_real = {"quick": 7, "thorough": 60}.get(tier, 7)
-  budget_fast = {"quick": 64, "thorough": 2000}.get(tier, 64)
+  budget_real = {"quick": 7, "thorough": 30}.get(tier, 7)
+  budget_fast = {"quick": 64, "thorough": 600}.get(tier, 64)
   lines, impls, metas = [], [], []
   try:
     for ci, (mk, lim, cname, kw) in enumerate(main + rnn):
